@@ -8,7 +8,7 @@ git -C /repo worktree remove --force $wt >/dev/null 2>&1
 git -C /repo worktree add -q --detach $wt HEAD || exit 2
 git -C $wt apply /verif/seeded/$sid/patch.diff || exit 2
 for p in "$@"; do
-  VERIF_REPO=$wt VERIF_EVIDENCE_DIR=/tmp/sr/ev_$sid VERIF_WORK_DIR=/tmp/sr/work_$sid VERIF_REPLAYS_DIR=/tmp/sr/rep_$sid /verif/check $p 2>&1 | cut -c1-330 | grep -E "VIOLATION|RESULT|MACHINERY" | tail -3
+  VERIF_TLC_CACHE_DIR=/verif/work/tlc_cache VERIF_REPO=$wt VERIF_EVIDENCE_DIR=/tmp/sr/ev_$sid VERIF_WORK_DIR=/tmp/sr/work_$sid VERIF_REPLAYS_DIR=/tmp/sr/rep_$sid /verif/check $p 2>&1 | cut -c1-330 | grep -E "VIOLATION|RESULT|MACHINERY" | tail -3
 done
 git -C /repo worktree remove --force $wt
 rm -rf /tmp/sr/ev_$sid /tmp/sr/work_$sid /tmp/sr/rep_$sid
